@@ -41,6 +41,9 @@ type rec struct {
 	recv []Ev // acc + ret, receiver order
 	sent []Ev // chunk.write of the sender
 	cond *sync.Cond
+	// C20: delivered bodies are kept together with a deep snapshot taken at delivery
+	keep  bool
+	kept  []keptMsg
 	// role flags
 	isRecv, isSend bool
 	viaDisp        bool // receiver is a client channel: returns are seen at disp.pop
@@ -105,6 +108,7 @@ func installHook() {
 				e.EOF = err == io.EOF
 			} else {
 				e.Dig = digestOf(kvGet(kv, "body"))
+				r.keepBody(kvGet(kv, "body"))
 			}
 			r.add(e)
 		case "expire.run":
@@ -301,6 +305,7 @@ func openRig(o rigOpts) (*rig, error) {
 					e.EOF = msg.Err == io.EOF
 				} else {
 					e.Dig = digestOf(anyBody(msg))
+					g.r.keepBody(anyBody(msg))
 				}
 				g.r.add(e)
 			}
